@@ -1,27 +1,38 @@
 ------------------------------- MODULE MC -------------------------------
 (* Bounded instances of Contexts: every assignment of scripts to the contexts within per-context *)
-(* length bounds, up to permutation of contexts that have the same bound.                        *)
+(* length bounds, up to permutation of contexts that have the same bound. Always three contexts; *)
+(* a bound of 0 leaves a context idle.                                                            *)
 EXTENDS Contexts
-CONSTANTS MaxLens   \* sequence of length bounds, one per context in the order of CtxSeq
+CONSTANTS MaxLens,  \* sequence of length bounds, one per context in the order of CtxSeq
+          OnlyRelated \* TRUE: keep only assignments in which every two non-empty scripts touch a common
+                      \* state component (operations on different components use different names, so an
+                      \* interference between them could not be observed by these scripts anyway)
 
-CtxSeq == << "c1", "c2", "c3" >>
-Pos(c) == CHOOSE i \in 1..Len(CtxSeq) : CtxSeq[i] = c
-Bound(c) == MaxLens[Pos(c)]
+\* constant-level tables (TLC evaluates them once)
+CompName == [i \in 1..Len(OpList) |-> Component(OpList[i].op).name]
+Scripts(n) == UNION { [1..k -> 1..Len(OpList)] : k \in 0..n }
+S1 == Scripts(MaxLens[1])
+S2 == Scripts(MaxLens[2])
+S3 == Scripts(MaxLens[3])
 
 Code(s) == FoldLeft(LAMBDA acc, o : acc * (Len(OpList) + 1) + o, 0, s)
-Scripts(n) == UNION { [1..k -> 1..Len(OpList)] : k \in 0..n }
-Sorted(a) == \A c, d \in Ctx : (Pos(c) < Pos(d) /\ Bound(c) = Bound(d)) =>
-                 (Len(a[c]) > Len(a[d]) \/ (Len(a[c]) = Len(a[d]) /\ Code(a[c]) <= Code(a[d])))
-F2(s1, s2) == ("c1" :> s1) @@ ("c2" :> s2)
-F3(s1, s2, s3) == ("c1" :> s1) @@ ("c2" :> s2) @@ ("c3" :> s3)
-MCScripts == IF Cardinality(Ctx) = 2
-             THEN { a \in { F2(s1, s2) : s1 \in Scripts(MaxLens[1]), s2 \in Scripts(MaxLens[2]) } : Sorted(a) }
-             ELSE { a \in { F3(s1, s2, s3) : s1 \in Scripts(MaxLens[1]), s2 \in Scripts(MaxLens[2]), s3 \in Scripts(MaxLens[3]) } : Sorted(a) }
+\* s before t in the order used to pick one representative of each orbit of the context permutations
+Leq(s, t) == Len(s) > Len(t) \/ (Len(s) = Len(t) /\ Code(s) <= Code(t))
+Comps(s) == { CompName[s[i]] : i \in 1..Len(s) }
+Rel(s, t) == ~OnlyRelated \/ s = <<>> \/ t = <<>> \/ Comps(s) \cap Comps(t) # {}
 
-ML21 == <<2, 1>>
-ML22 == <<2, 2>>
+F3(s1, s2, s3) == ("c1" :> s1) @@ ("c2" :> s2) @@ ("c3" :> s3)
+\* the family of the configuration; a context that a family does not use gets the empty script (bound 0)
+MCSeeds == S1
+MCCases(s1) ==
+  { a \in { F3(s1, s2, s3) : s2 \in { t \in S2 : (MaxLens[1] = MaxLens[2] => Leq(s1, t)) /\ Rel(s1, t) }, s3 \in S3 } :
+      /\ (MaxLens[2] = MaxLens[3] => Leq(a["c2"], a["c3"]))
+      /\ Rel(a["c1"], a["c3"]) /\ Rel(a["c2"], a["c3"]) }
+
+ML210 == <<2, 1, 0>>
+ML220 == <<2, 2, 0>>
+ML110 == <<1, 1, 0>>
 ML111 == <<1, 1, 1>>
-ML31 == <<3, 1>>
 Both == {"percontext", "reject"}
 One == {"percontext"}
 =============================================================================
